@@ -91,6 +91,7 @@ where
     let _ = std::fs::create_dir_all(dir);
     let lane_seed = seed ^ (lane + 1).wrapping_mul(0xD1B5_4A32_D192_ED03);
     *LAST_VIOLATION.lock().unwrap() = None;
+    crate::sim::clear_last_panic();
     let use_pct = lane % 4 == 3;
     let cfg = config(dir, max_secs);
     let r = std::panic::catch_unwind(std::panic::AssertUnwindSafe(move || {
@@ -112,7 +113,22 @@ where
             files.sort();
             j.set("schedule_file", files.last().map(|p| J::Str(p.display().to_string())).unwrap_or(J::Null));
             let v = LAST_VIOLATION.lock().unwrap().clone();
-            j.set("violation", v.and_then(|t| crate::json::parse(&t).ok()).unwrap_or(J::Null));
+            let vj = match v.and_then(|t| crate::json::parse(&t).ok()) {
+                Some(vj) => vj,
+                None => {
+                    // no model mismatch was recorded: a panic. Inside the files this property is anchored
+                    // in it counts like in the sequential phase; shuttle's own (deadlock, step limit), the
+                    // harness's, or one in another property's code do not.
+                    let msg = crate::sim::last_panic_anywhere();
+                    let loc = msg.rsplit(" at ").next().unwrap_or("").to_string();
+                    if loc.starts_with('/') && W::anchored_files().iter().any(|f| loc.contains(f)) {
+                        J::obj().with("class", J::str("panic/concurrent/-")).with("step", J::u(0)).with("detail", J::Str(format!("crate code panicked under a concurrent schedule: {}", msg)))
+                    } else {
+                        J::Null
+                    }
+                }
+            };
+            j.set("violation", vj);
         }
     }
     j
